@@ -27,6 +27,7 @@ type fakeDocker struct {
 	faultAt int // the faultAt-th inspect call (1-based, since reset) answers 500
 	n       int
 	ln      net.Listener
+	unknown string // answer for ids that are not in states ("" = not found)
 }
 
 func (d *fakeDocker) ServeHTTP(w http.ResponseWriter, r *http.Request) {
@@ -42,6 +43,9 @@ func (d *fakeDocker) ServeHTTP(w http.ResponseWriter, r *http.Request) {
 	st, ok := d.states[id]
 	if !ok {
 		st = "notfound"
+		if d.unknown != "" {
+			st = d.unknown
+		}
 	}
 	if d.faultAt > 0 && d.n == d.faultAt {
 		st = "err500"
@@ -74,6 +78,7 @@ type gcHarness struct {
 	g       gc.GC
 	mu      sync.Mutex
 	cleaned []string
+	cbFail  string // the port clean callback fails for this container id, every time (e.g. a torn port file)
 }
 
 func newGCHarness() (*gcHarness, error) {
@@ -101,7 +106,11 @@ func newGCHarness() (*gcHarness, error) {
 	h.g = gc.NewFlannelGC(embedKubeClient(), cli, make(chan struct{}), func(id string) error {
 		h.mu.Lock()
 		h.cleaned = append(h.cleaned, id)
+		fail := h.cbFail != "" && id == h.cbFail
 		h.mu.Unlock()
+		if fail {
+			return fmt.Errorf("failed to read ports: unexpected end of JSON input")
+		}
 		return nil
 	})
 	return h, nil
@@ -189,6 +198,12 @@ func c17Job(shard, nshards int, tier string) Job {
 					for k := 1; k <= maxFault; k++ {
 						c17Case(r, name, h, ids, st, k)
 					}
+					// the port clean callback fails persistently for one container (unreadable port file, iptables failing)
+					for _, id := range ids {
+						h.cbFail = id
+						c17Case(r, name, h, ids, st, 0)
+						h.cbFail = ""
+					}
 				}
 			}
 		}
@@ -207,6 +222,9 @@ func c17Case(r *caseResult, scen string, h *gcHarness, ids []string, st map[stri
 	desc := fmt.Sprintf("containers %v, the %d-th inspect call of round 1 answers 500", st, faultAt)
 	if faultAt == 0 {
 		desc = fmt.Sprintf("containers %v, no injected error", st)
+	}
+	if h.cbFail != "" {
+		desc += ", port clean callback always fails for " + h.cbFail
 	}
 	r.evals++
 	gc.VerifRunOnce(h.g)
@@ -289,7 +307,7 @@ func c17Case(r *caseResult, scen string, h *gcHarness, ids []string, st map[stri
 		}
 	}
 	sort.Strings(remaining)
-	r.distinct[hashOf(st, faultAt, remaining)] = true
+	r.distinct[hashOf(st, faultAt, h.cbFail, remaining)] = true
 	if len(r.samples) < 3 && r.evals%131 == 1 {
 		r.samples = append(r.samples, fmt.Sprintf("%s -> inspect answers %v; remaining %v", desc, answers, remaining))
 	}
@@ -302,12 +320,13 @@ func init() {
 			"3 containers, each running / exited / dead / not found / inspect error 500 / connection dropped; directories hold state files, port files, IP files in three content forms, plus entries that must never be removed (non-IP names, empty IP file, sub-directories)",
 			"files in gc_dirs whose names are not container ids are, by the flag's own documentation, treated as ids; none are placed there"},
 		Rule: "all 6^3 container state combinations x (no injected error | the k-th inspect call of the first round answering 500, for every k (quick: k<=6)) x three GC rounds through the run-once hook; safety after every round (nothing removed without a dead answer, nothing of live/unknown containers, no non-container entry), " +
-			"liveness after two fault-free rounds, and port-clean callbacks; distinct/non-trivial = distinct (states, fault position, remaining files)",
+			"liveness after two fault-free rounds, and port-clean callbacks (also with a callback that fails persistently for one container); plus the collector with the real daemon's callback over files and NAT rules the daemon wrote itself (6 x 2 container states x 5 port-file forms); distinct/non-trivial = distinct (states, fault position, remaining files)",
 		Jobs: func(tier string) []Job {
 			var jobs []Job
 			for s := 0; s < 8; s++ {
 				jobs = append(jobs, c17Job(s, 8, tier))
 			}
+			jobs = append(jobs, c17DaemonJob(tier))
 			return jobs
 		}})
 	replayers["C17"] = replayDescOnly
